@@ -127,7 +127,11 @@ def mk_series(s, shift, use_range):
         idx = pd.RangeIndex(labels[0], labels[0] + len(labels))
     else:
         idx = pd.Index(np.array(labels, dtype="int64"))
-    return pd.Series(np.array(vals, dtype="float64"), index=idx)
+    arr = np.array(vals, dtype="float64")
+    # integer-valued data without gaps are sometimes handed over with an integer dtype
+    if len(vals) and not np.isnan(arr).any() and np.all(arr == np.round(arr)) and (len(vals) + int(abs(arr).sum())) % 3 == 0:
+        arr = arr.astype("int64")
+    return pd.Series(arr, index=idx)
 
 
 def mk_fh(fh, shift):
@@ -276,6 +280,8 @@ def _pv(x):
 # ------------------------------------------------------------------ generators
 def rand_vals(rng, n, nan_p=0.0, positive=False):
     out = []
+    if rng.random() < 0.2:          # an integer-valued stretch
+        return [None if rng.random() < nan_p else float(rng.randrange(1 if positive else -40, 41)) for _ in range(n)]
     for _ in range(n):
         if rng.random() < nan_p:
             out.append(None)
